@@ -166,6 +166,9 @@ func VariantBinary(spec Spec, variant string) (string, error) {
 	}
 	out := filepath.Join(workDir(), strings.ToLower(spec.ID)+"-"+variant)
 	args := []string{"build", "-tags", "test verif"}
+	if mf := os.Getenv("VERIF_MODFILE"); mf != "" {
+		args = append(args, "-modfile="+mf)
+	}
 	switch variant {
 	case "race":
 		args = append(args, "-race")
